@@ -115,6 +115,27 @@ func resC09(g graph.Graph, eg graph.EditableGraph, r *rand.Rand) tr.E {
 	out["greedy"] = gr
 	d, ord := graph.Degeneracy(g)
 	out["degen"] = tr.E{"d": d, "order": cp(ord)}
+	// beyond the listed functions: RandomMaximalClique (a maximal clique, the same for the same seed) and IsProperColouring
+	rmc := []tr.E{}
+	for seed := int64(1); seed <= 4; seed++ {
+		a, b := cp(graph.RandomMaximalClique(g, seed)), cp(graph.RandomMaximalClique(g, seed))
+		sort.Ints(a)
+		sort.Ints(b)
+		rmc = append(rmc, tr.E{"seed": seed, "clique": a, "again": b})
+	}
+	out["rmc"] = rmc
+	ipc := []tr.E{}
+	for t := 0; t < 6; t++ {
+		c := make([]int, n)
+		for i := range c {
+			c[i] = r.Intn(3) - (t % 2) // with and without negative entries
+		}
+		if t == 5 && n > 0 {
+			c = c[:n-1] // wrong length
+		}
+		ipc = append(ipc, tr.E{"col": c, "ok": graph.IsProperColouring(g, cp(c))})
+	}
+	out["ipc"] = ipc
 	return out
 }
 
@@ -151,6 +172,19 @@ func resC10(g graph.Graph, eg graph.EditableGraph) tr.E {
 		ip = append(ip, tr.E{"ml": ml, "counts": cp(graph.NumberOfInducedPaths(g, ml))})
 	}
 	out["indcycles"], out["indpaths"] = ic, ip
+	// beyond the listed functions: MinDegree, MaxDegree, Equal (with itself, with its complement, with a copy after an edit)
+	out["mindeg"], out["maxdeg"] = graph.MinDegree(g), graph.MaxDegree(g)
+	h := eg.Copy()
+	eq := []bool{graph.Equal(g, h), graph.Equal(g, graph.ComplementDense(g))}
+	if n >= 2 {
+		if h.IsEdge(0, 1) {
+			h.RemoveEdge(0, 1)
+		} else {
+			h.AddEdge(0, 1)
+		}
+		eq = append(eq, graph.Equal(g, h))
+	}
+	out["equal"] = eq
 	return out
 }
 
